@@ -13,7 +13,7 @@
     decoding and re-encoding, XML output, templates, the audio recipe of C03) is not modelled:
     for well-formed assets it ends in a 200. *)
 From Coq Require Import Ascii String List ZArith Lia Bool Floats.
-From Verif Require Import GoSem UrlStr UrlCfg.
+From Verif Require Import GoSem UrlStr UrlFixes UrlCfg.
 
 (** * Responses *)
 Inductive hres :=
@@ -244,7 +244,8 @@ Definition ref_meta_from_time (a : asset) (r : arep) (c : cfg) (time nowMS : Z) 
       | Some (relNr, s) =>
         let refEnd := u64 (wrapTime + s_en s) in
         if refEnd =? 0 then Ret e500 else
-        let avail := PrimFloat.div (f_of_int (i64 refEnd)) (f_of_int (r_ts ref)) in
+        let mediaRef := c_startS c * r_ts ref in
+        let avail := PrimFloat.div (f_of_int (i64 (i64 refEnd + mediaRef))) (f_of_int (r_ts ref)) in
         with_tsbd "app.findRefSegMetaFromTime" c (fun tsbd =>
         timed (check_time avail (now_s nowMS) tsbd (c_ato c))
           (Cont {| m_time := u64 (wrapTime + s_st s);
@@ -256,8 +257,13 @@ Definition ref_meta_from_time (a : asset) (r : arep) (c : cfg) (time nowMS : Z) 
 
 (** findRefSegMeta *)
 Definition find_ref_seg_meta (a : asset) (r : arep) (c : cfg) (segPart : string) (segID nowMS : Z) : hm meta :=
-  if rep_type c segPart =? 0 then seg_meta_from_nr (a_ref a) (a_loopMS a) c (u32 segID) nowMS
+  if rep_type c segPart =? 0 then
+    let nr := u32 segID in
+    if nr <? u32 (start_nr c) then Ret e404 else seg_meta_from_nr (a_ref a) (a_loopMS a) c nr nowMS
   else ref_meta_from_time a r c (u64 segID) nowMS.
+
+Section WithFixes.
+Variable fx : fixes.
 
 (** * Traffic (BaseURL loss patterns) *)
 
@@ -281,7 +287,8 @@ Definition traffic_gate (c : cfg) (segPart : string) (nowMS : Z) : hm string :=
     | Panic s => Ret (HPanic s)
     | Err _ => Ret e500
     | Ok (nr, sp) =>
-      if nr <? 0 then Cont sp
+      if fx_traffic_idx fx && (lenZ (c_traffic c) <=? nr) then Ret (HStatus 400 "traffic patterns")
+      else if nr <? 0 then Cont sp
       else match nthZ nr (c_traffic c) with
            | None => Ret (HPanic "app.(*Server).livesimHandlerFunc: index out of range")
            | Some itvls =>
@@ -327,6 +334,10 @@ Definition time_subs_init (c : cfg) (segPart : string) : option bool :=
 Definition rep2subs (t tsc : Z) : Z :=
   u64 (f_to_int (f_round (PrimFloat.div (f_of_int (i64 (u64 (t * 1000)))) (f_of_int tsc)))).
 
+(** Number of loop rounds (each appending to a slice) that a request can make within the
+    watchdog and the heap limit of the check; more than that counts as hanging. *)
+Definition spin_limit : Z := 50000000.
+
 (** calcCueItvls: only termination and the divisions. *)
 Definition calc_cue_itvls (segStart segDur utcStart cueDur : Z) : hm unit :=
   let cueFullS := f_to_int (f_ceil (PrimFloat.mul (f_of_int cueDur) f_milli)) in
@@ -338,11 +349,14 @@ Definition calc_cue_itvls (segStart segDur utcStart cueDur : Z) : hm unit :=
   if bound <? first then Cont tt                       (* loop not entered *)
   else if 0 <? cueFullS then Cont tt                   (* at most bound-first+1 rounds *)
   else
-    (* the step is negative: utcS only decreases and stays <= bound; the only exit is
-       cueStartMS == utcEndMS *)
+    (* the step is negative: utcS only decreases and stays <= bound; the loop ends when
+       cueStartMS == utcEndMS or when utcS wraps around int64, i.e. after about
+       (first + 2^63) / -step rounds, each of which appends an interval *)
     if (Z.rem utcEnd 1000 =? 0) && (Z.quot utcEnd 1000 <=? first)
        && (Z.rem (first - Z.quot utcEnd 1000) (- cueFullS) =? 0)
+       && ((first - Z.quot utcEnd 1000) / (- cueFullS) <? spin_limit)
     then Cont tt
+    else if (first + two63) / (- cueFullS) <? spin_limit then Cont tt
     else Ret (HHang "app.calcCueItvls: loop").
 
 (** getRefSegMeta *)
@@ -350,6 +364,7 @@ Definition get_ref_seg_meta (a : asset) (c : cfg) (n nowMS : Z) : hm meta :=
   let ref := a_ref a in
   if c_segTimeline c then
     seg_meta_from_time ref (a_loopMS a) c (u64 (Z.quot (i64 (n * r_ts ref)) 1000)) nowMS
+  else if fx_subs_startnr fx && ((n <? 0) || (u32 n <? u32 (start_nr c))) then Ret e404
   else seg_meta_from_nr ref (a_loopMS a) c (u32 n) nowMS.
 
 (** writeTimeSubsMediaSegment: None = not a time-subs media segment *)
@@ -438,7 +453,7 @@ Fixpoint status_loop (a : asset) (c : cfg) (r mr : arep) (m : meta) (codes : lis
       let wrapStartS := i64 (nrWraps * sc_cycle ss) in
       hdo firstNr0 <- (if 0 <? nrWraps then
                          hdo l <- find_last_seg_nr a c (i64 (wrapStartS * 1000)) mr; Cont (l + 1)
-                       else Cont 0);
+                       else Cont (if fx_status_startnr fx then start_nr c else 0));
       hdo segTime <- find_seg_start_time a c firstNr0 mr;
       let firstNr := if segTime <? i64 (wrapStartS * m_ts m) then firstNr0 + 1 else firstNr0 in
       let idx := m_nr m - firstNr in
@@ -480,7 +495,7 @@ Fixpoint match_init (e : env) (c : cfg) (reps : list arep) (segPart : string) : 
 (** encryptFrags *)
 Definition encrypt_frags (e : env) (c : cfg) (r : arep) : hm unit :=
   if String.eqb (c_drm c) "" then Cont tt
-  else if negb (r_enc r) then Ret (HPanic "app.encryptFrags: nil dereference")
+  else if negb (r_enc r) then (if fx_drm fx then Cont tt else Ret (HPanic "app.encryptFrags: nil dereference"))
   else if is_eccp (c_drm c) then Cont tt
   else if e_drm e then Ret e500
   else Ret (HPanic "app.encryptFrags: nil dereference").
@@ -631,7 +646,7 @@ Definition live_handler (e : env) (path : string) (nowArg : string) (uq : list (
   match atoi nowArg with
   | None => HStatus 400 "bad nowMS query"
   | Some now0 =>
-    match process_url_cfg path now0 with
+    match process_url_cfg fx path now0 with
     | Panic s => HPanic s
     | Err m => HStatus 400 m
     | Ok c =>
@@ -644,11 +659,17 @@ Definition live_handler (e : env) (path : string) (nowArg : string) (uq : list (
       | None => HStatus 404 "unknown asset"
       | Some a =>
         let ext := path_ext path in
+        if fx_drm fx && negb (String.eqb (c_drm c) "") && negb (is_eccp (c_drm c)) && negb (e_drm e)
+        then HStatus 400 "unknown drm" else
         if String.eqb ext ".mpd" then
           if negb (check_query (c_query c) uq) then HStatus 400 "query check mismatch"
           else live_mpd e a c (last_elem contentPart) nowMS
         else if existsb (String.eqb ext) media_exts then
           let segPart0 := drop_str (String.length (a_path a)) contentPart in
+          if fx_chunkdur fx && negb (c_complete c) &&
+             negb (PrimFloat.leb 0%float (c_ato c) &&
+                   PrimFloat.ltb (PrimFloat.mul (c_ato c) f_1000) (f_of_int (a_segDurMS a)))
+          then HStatus 400 "chunked mode needs" else
           match traffic_gate c segPart0 nowMS with
           | Ret r => r
           | Cont segPart =>
@@ -676,10 +697,12 @@ Fixpoint license_loop (kids : list (option (list Z))) : hres :=
   | None :: _ => HStatus 500 "id16FromBase64 error"
   | Some b :: t =>
     if list_eqb Z.eqb (firstn 3 b) kid_start then license_loop t
+    else if fx_kid fx then HStatus 400 "key id was not issued by livesim2"
     else HPanic "app.kidToKey: keyID does not start with 3 k i d bytes"
   end.
 
 Definition license_handler (suffix_ok json_ok : bool) (kids : list (option (list Z))) : hres :=
+  if fx_kid fx && negb suffix_ok then HStatus 400 "URL does not end with" else
   let r := if json_ok then license_loop kids else HStatus 500 "Unmarshal error" in
   match r with
   | HStatus code m => if suffix_ok then r else HStatus 400 "URL does not end with"
@@ -688,6 +711,8 @@ Definition license_handler (suffix_ok json_ok : bool) (kids : list (option (list
 
 (** * GET /urlgen/create and /urlgen/drms *)
 Definition urlgen_create (tsbd ltgt ptl : string) : hres :=
+  let bad s := negb (String.eqb s "") && match atoi s with None => true | _ => false end in
+  if fx_urlgen_create fx && (bad tsbd || bad ltgt || bad ptl) then HStatus 400 "is not an integer" else
   if negb (String.eqb tsbd "") && match atoi tsbd with None => true | _ => false end
   then HPanic "app.createURL: bad tsbd"
   else if negb (String.eqb ltgt "") && match atoi ltgt with None => true | _ => false end
@@ -697,7 +722,7 @@ Definition urlgen_create (tsbd ltgt ptl : string) : hres :=
   else ok200.
 
 Definition urlgen_drms (e : env) (assetName : string) : hres :=
-  if existsb (fun a => String.eqb (a_path a) assetName) (e_assets e) && negb (e_drm e)
+  if negb (fx_urlgen_drms fx) && existsb (fun a => String.eqb (a_path a) assetName) (e_assets e) && negb (e_drm e)
   then HPanic "app.(*Server).urlGenHandlerFunc: index out of range"
   else ok200.
 
@@ -715,3 +740,5 @@ Definition handler_model (e : env) (r : request) : hres :=
   | RUrlgenCreate a b c => urlgen_create a b c
   | RUrlgenDrms n => urlgen_drms e n
   end.
+
+End WithFixes.
